@@ -1108,7 +1108,11 @@ impl Watch for Judge {
                     if self.past.len() > base {
                         let inner: Vec<Ent> = self.past.drain(base..).collect();
                         let tag = if inner.len() == 1 { inner[0].tag.clone() } else { format!("group({})", inner.iter().map(|e| e.tag.as_str()).collect::<Vec<_>>().join("+")) };
-                        self.past.push(Ent { b: inner[0].b, a: inner[inner.len() - 1].a, tag });
+                        // the engine may close the group into any number n >= 1 of steps: first `before` and last `after` are known
+                        let n = if ul > base { ul - base } else { 1 };
+                        for i in 0..n {
+                            self.past.push(Ent { b: if i == 0 { inner[0].b } else { None }, a: if i == n - 1 { inner[inner.len() - 1].a } else { None }, tag: tag.clone() });
+                        }
                     } else if ul > self.past.len() {
                         self.past.push(Ent { b: Some(now), a: Some(now), tag: "group()".into() });
                     }
@@ -1116,8 +1120,12 @@ impl Watch for Judge {
             }
             _ => {}
         }
-        while self.past.len() > ul { self.past.pop(); }
-        while self.past.len() < ul { self.past.push(Ent { b: None, a: None, tag: "?".into() }); }
+        if self.past.len() != ul {
+            // lengths disagree: only "undoing everything gives the initial document" is still known (as in Trace_Undo!Forget)
+            let b0 = self.past.first().and_then(|e| e.b);
+            self.past = (0..ul).map(|i| Ent { b: if i == 0 { b0 } else { None }, a: None, tag: "?".into() }).collect();
+            for e in &mut self.future { e.b = None; e.a = None; }
+        }
         self.cur = now;
     }
 }
